@@ -1,5 +1,7 @@
 import GoPlugin.Model.Handshake
+import GoPlugin.Model.Serve
 /- REGENERATED from the go-plugin source on every run by /verif/extract — do not edit. -/
 namespace GoPlugin.Facts
 def handshake : Handshake.Params := ⟨true, true, 4, 50, 1⟩
+def serve : Serve.Params := ⟨[.cookieGate, .listen, .init, .print, .swapStdout, .accept], true, true, 1, true, [37, 100, 124, 37, 100, 124, 37, 115, 124, 37, 115, 124, 37, 115, 124, 37, 115], [.core, .app, .network, .address, .proto, .cert], [124, 37, 118], true, true, [37, 115, 10], 1⟩
 end GoPlugin.Facts
